@@ -147,6 +147,10 @@ func init() {
 		}()
 		switch part := c.Choose(7); part {
 		case 6: // namespaces the program sets on the parser, on commands and on groups through their public fields
+			if c.Bool() {
+				c19StructInGroup(c)
+				return
+			}
 			c19ApiNamespaces(c)
 		case 0: // every short tag string over the scanner-relevant bytes
 			maxLen := 8
@@ -681,7 +685,7 @@ func init() {
 			"(v) every pair of placements {top, plain subgroup, namespaced, doubly namespaced} x {same name, near miss, collision created by namespaces} x {long, short incl. non-ASCII} x {declared through NewParser, on a subcommand's struct, added with (*Group).AddGroup to an existing group, NewNamedParser with NamespaceDelimiter \"-\" set before AddGroup}; (malformed tag strings of <= 5 bytes also on a field of a positional-args struct; every declaration whose first field's tag has an even length is followed by a successful AddGroup before the first use: a setup error must survive it); (vi) default tags on bool / []bool / *bool / []*bool / **bool / *[]bool / func() vs string types; " +
 			"oracle: exported model fields echo the attributes exactly, malformed tags => ErrTag, long short name => ErrShortNameTooLong, bool default => ErrInvalidTag, colliding names => ErrDuplicatedFlag, never a panic; distinct = distinct (part, cell, error class)",
 		Assumptions:  []string{"keys containing control characters or backslashes, and empty keys, are grey (no panic, any error typed)", "single-valued keys are repeated with the same value only", "falsy spellings false/no/0 do not set a mark on options (pinned by the repository's tests)"},
-		RequiredHits: []string{"declaration-error-asked-twice", "api-namespaces", "tag-reject", "tag-accept", "tag-grey", "echo:default", "echo:choice", "mark:required", "short-too-long", "structure", "duplicate", "near-collision", "bool-default"},
+		RequiredHits: []string{"declaration-error-asked-twice", "api-namespaces", "struct-inside-a-group", "tag-reject", "tag-accept", "tag-grey", "echo:default", "echo:choice", "mark:required", "short-too-long", "structure", "duplicate", "near-collision", "bool-default"},
 		Bound:        [2]string{"tag strings <= 8", "tag strings <= 9"},
 		BudgetS:      [2]int{170, 1500},
 	})
@@ -776,4 +780,57 @@ func c19ApiNamespaces(c *explore.Ctx) {
 	check("command add", first(add.Group), join(ns[0], ns[1], "xopt"))
 	check("subcommand sub", first(sub.Group), join(ns[0], ns[1], ns[2], "xopt"))
 	check("group of sub", first(grp), join(ns[0], ns[1], ns[2], ns[3], "yopt"))
+}
+
+// c19StructInGroup: a struct field tagged `command` or `positional-args` that sits inside a group (directly, or in a group nested
+// in a group). Either the declaration is read faithfully - the command / the positional arguments exist in the public model - or
+// it is rejected when the parser is built or first used; reading the struct's fields as plain options of the group, or dropping
+// it, is a silently mis-read declaration.
+func c19StructInGroup(c *explore.Ctx) {
+	sfield := func(name string, t reflect.Type, tag string) reflect.StructField {
+		return reflect.StructField{Name: name, Type: t, Tag: reflect.StructTag(tag)}
+	}
+	which := c.Choose(2) // 0 command, 1 positional-args
+	nested := c.Bool()   // inside a group that is itself inside a group
+	pointer := c.Bool()  // the tagged field is a pointer to the struct
+	boolT := reflect.TypeOf(false)
+	inner := reflect.StructOf([]reflect.StructField{sfield("X", boolT, `long:"xx"`), sfield("A", reflect.TypeOf(""), "")})
+	var ft reflect.Type = inner
+	if pointer {
+		ft = reflect.PtrTo(inner)
+	}
+	tag := `command:"sub"`
+	if which == 1 {
+		tag = `positional-args:"yes"`
+	}
+	grp := reflect.StructOf([]reflect.StructField{sfield("Y", boolT, `long:"yy"`), sfield("Sub", ft, tag)})
+	if nested {
+		grp = reflect.StructOf([]reflect.StructField{sfield("Z", boolT, `long:"zz"`), sfield("In", grp, `group:"Inner"`)})
+	}
+	fields := []reflect.StructField{sfield("V", boolT, `short:"v"`), sfield("G", grp, `group:"Grp"`)}
+	c.Describe(func() interface{} {
+		return map[string]interface{}{"part": "command / positional-args struct inside a group", "tag": tag, "group_nested_in_a_group": nested, "pointer_field": pointer}
+	})
+	p, err, pan := c19Parse(fields)
+	if pan != nil {
+		c.Fail("panic-on-tag|"+panicClass(pan), fmt.Sprint(pan))
+		return
+	}
+	c.Hit("struct-inside-a-group")
+	c.Outcome("struct-in-group", tag, fmt.Sprint(nested, pointer), errType(err))
+	if err != nil {
+		if _, ok := err.(*flags.Error); !ok {
+			c.Fail("declaration-error-not-typed|"+errType(err), fmt.Sprint(err))
+		}
+		return // rejected at setup
+	}
+	if which == 0 {
+		if p.Find("sub") == nil {
+			c.Fail("command-inside-a-group-silently-read-as-plain-options", map[string]interface{}{"commands": len(p.Commands()), "xx_is_an_option_of_the_parser": p.FindOptionByLongName("xx") != nil})
+		}
+		return
+	}
+	if len(p.Args()) == 0 {
+		c.Fail("positional-args-inside-a-group-silently-dropped", map[string]interface{}{"args": 0, "xx_is_an_option_of_the_parser": p.FindOptionByLongName("xx") != nil})
+	}
 }
